@@ -273,7 +273,9 @@ class Check:
     def __init__(self, prop, tier, level='proof'):
         self.prop = prop
         self.tier = tier
-        self.level = level
+        LEVELS = ('exploration', 'fault_enumeration', 'model_checking', 'proof', 'translation_validation', 'other')
+        self.level_note = None if level in LEVELS else level
+        self.level = level if level in LEVELS else ('proof' if 'proof' in level else 'other')
         self.seed = int(os.environ.get('VERIF_SEED', '1'))
         self.rng = random.Random(self.seed * 1000003 + sum(map(ord, prop)))
         self.t0 = time.time()
@@ -312,7 +314,7 @@ class Check:
         cov['samples'] = cov['samples'][:12]
         ev = {'property_id': self.prop, 'tier': self.tier, 'seed': self.seed, 'level': self.level,
               'coverage': cov, 'assumptions': self.assumptions, 'wall_s': round(wall, 2),
-              'violations': len(self.violations), 'notes': self.notes,
+              'violations': len(self.violations), 'notes': self.notes + ([self.level_note] if self.level_note else []),
               'known_findings_reported': [k for k, _ in self.known]}
         os.makedirs(os.path.join(VERIF, 'evidence'), exist_ok=True)
         with open(os.path.join(VERIF, 'evidence', '%s.json' % self.prop), 'w') as f:
